@@ -147,7 +147,8 @@ pub fn parse_meta(seed: u64, budget: u64) -> i32 {
             if p.split('/').any(|c| c.is_empty() || c == "." || c == "..") || !used.insert(p.clone()) { continue; }
             let size = match rng.below(4) { 0 => 0, 1 => u64::MAX, _ => rng.next() >> rng.below(64) };
             let secs = match rng.below(5) { 0 => 0, 1 => i64::MAX, 2 => 253_402_300_800, _ => (rng.next() >> (1 + rng.below(40))) as i64 };
-            let frac = if rng.below(2) == 0 { Some(rng.below(1_000_000_000) as u32) } else { None };
+            // fractions at the edges of a second included: a parser that goes through floating point rounds .999999999 up
+            let frac = match rng.below(8) { 0 | 1 | 2 => None, 3 => Some(999_999_999), 4 => Some(999_999_990 - rng.below(200) as u32), 5 => Some(rng.below(3) as u32), _ => Some(rng.below(1_000_000_000) as u32) };
             recs.push((p, size, secs, frac));
         }
         if recs.is_empty() { continue; }
